@@ -11,8 +11,12 @@
   Key lemma `J4.no_alias_udp`: on model behaviour a reply that `classifyFor` takes for a STUN response comes
   from the STUN responder (ONC-RPC/UDP replies never carry the call's bytes 4..19: `J4.rpcudp_tid_ne`; DNS
   fallback replies have the QR bit set: `J4.dns_reply_never_stun`).
-  * `judgeC15_accepts_model_tcp` — first segment of a TCP flow (`forced = none`): `judgeC15` passes
-    without looking (`nontrivial = false`);
+  FULL STRENGTH (first segment of a fresh TCP flow, `tcb = some {}`; the judge treats a segment that the
+  published STREAM reference identifies as STUN — only the magic-cookie pattern can — exactly like a datagram:
+  success response, transaction id, MAPPED-ADDRESS, change-port rule on `portAfter`):
+  * `judgeC15_accepts_model_outside_shadow_tcp` — outside `Spec.shadowed`: accepted;
+  * `judgeC15_fails_only_shadowed_tcp` — accepted, or failed with the "[shadowed] " marker
+    (`judgeC15_tcp_cases`); hypotheses: gate open (`ci.cookie ≠ none`), `CiOk`, payload ≤ 65535 bytes;
   * `judgeC15_accepts_model_sticky` — later segment of a flow whose sticky id is STUN
     (`forced = some ID_STUN`, model = `protoHandle … ID_STUN …`): accepted, no shadow hypothesis.
 
@@ -141,10 +145,88 @@ theorem judgeC15_fails_only_shadowed (cfg : Cfg) (env : Env) (ci ci' : ClientInf
 
 /-! ### TCP -/
 
-/-- first segment of a TCP flow (`forced = none`): `judgeC15` does not look (`pass false`) -/
-theorem judgeC15_accepts_model_tcp (ci ci' : ClientInfo) (p : Bytes) (reply : Option Bytes)
-    (htcp : ci.transport = some 6) : judgeC15 (obsOf ci p ci' reply) = pass false := by
-  simp [judgeC15, obsOf, htcp]
+/-- CORE, first segment of a fresh TCP flow (`tcb = some {}`): the verdict on the model's answer is "ok", or a
+    failure marked as K2 on a shadowed payload.  A segment that the published stream reference identifies as STUN
+    (only the magic-cookie pattern can: the two cookie-less forms are end-anchored and belong to `refDatagram`)
+    is judged like a datagram; the model hands it to the same STUN responder. -/
+theorem judgeC15_tcp_cases (cfg : Cfg) (env : Env) (ci ci' : ClientInfo) (tcb' : Option Tcb) (p : Bytes)
+    (reply : Option Bytes) (htcp : ci.transport = some 6) (hck : ci.cookie ≠ none) (hci : CiOk ci)
+    (hl : p.length ≤ 65535) (hrun : protoRepl cfg env ci (some {}) p = .ok (ci', tcb', reply)) :
+    (judgeC15 (obsOf ci p ci' reply)).ok = true ∨
+    (shadowed p = true ∧ marked (judgeC15 (obsOf ci p ci' reply))) := by
+  have hg : Gate ci := fun h => hck h.2
+  by_cases hr : refStream p = some ID_STUN
+  · rw [judgeC15_obs_tcp _ _ _ _ htcp hr]
+    obtain ⟨h0, h1⟩ := pub_stun_first_stream p hr
+    cases hp : parseStun p with
+    | none => exact .inl rfl
+    | some m =>
+      simp only
+      have hb : m.cls = 0 ∧ m.method = 1 ∧ u8 p 0 = 0 ∧ u8 p 1 = 1 := by
+        obtain ⟨_, _, _, _, hcls, hmeth, _⟩ := Masscanned.parseStun_inv hp
+        rw [h0, h1] at hcls hmeth
+        exact ⟨by omega, by omega, h0, h1⟩
+      rw [if_pos hb]
+      obtain ⟨src, hs, hw⟩ := hci.src
+      obtain ⟨sp, hps, hsp⟩ := hci.sport
+      obtain ⟨dp, hdp⟩ := hci.dport
+      by_cases hk : refStreamK2 p = some ID_STUN
+      · obtain ⟨ci'', r, hrep, hok, hpd, _⟩ :=
+          C15.stun_binding_success_partial ci p m src sp hp hb.1 hb.2.1 hl hs hps hsp hw
+        obtain ⟨st, hst⟩ := repl_stream_some cfg env ci p _ hg hk
+        rw [hst, handle_stun, hrep] at hrun
+        simp only [Except.ok.injEq, Prod.mk.injEq] at hrun
+        obtain ⟨rfl, _, rfl⟩ := hrun
+        left
+        simp only [hs, hps, Option.getD_some, hok, Bool.not_true, Bool.false_eq_true, if_false, hpd, hdp,
+          Option.map_some, ne_eq, not_true_eq_false]
+        rfl
+      · have hsh : shadowed p = true := by
+          cases hsd : shadowed p with
+          | true => rfl
+          | false => exact absurd (by rw [C10.refStreamK2_eq_of_not_shadowed p hsd]; exact hr) hk
+        right
+        refine ⟨hsh, ?_⟩
+        cases reply with
+        | none => exact (failShadow_marked _ _ hsh).1
+        | some r =>
+          simp only
+          have hno : stunSuccessOk m r (ci.ipSrc.getD (.v4 [])) (ci.portSrc.getD 0) = false := by
+            cases hso : stunSuccessOk m r (ci.ipSrc.getD (.v4 [])) (ci.portSrc.getD 0) with
+            | false => rfl
+            | true =>
+              exfalso
+              have hshape := stunSuccessOk_stunShape _ _ _ _ hso
+              rcases stun_class_source_stream cfg env ci ci' tcb' p r hg hrun hshape with ⟨h1', _⟩ | ⟨_, e0, e1, _⟩
+              · exact hk h1'
+              · exact not_stunShape_of_0001 r (by rw [e0]; exact h0) (by rw [e1]; exact h1) hshape
+          rw [hno]
+          exact (failShadow_marked _ _ hsh).1
+  · rw [judgeC15_obs_tcp_other _ _ _ _ htcp hr]; exact .inl rfl
+
+/-- **C15 judge, soundness outside the shadow set, first TCP segment** (FULL STRENGTH): hypotheses — the SYN-cookie
+    gate is open (`ci.cookie ≠ none`, always the case at the TCP layer), `CiOk` (source address of 4 / 16 bytes,
+    16-bit source port, a destination port), payload of at most 65535 bytes -/
+theorem judgeC15_accepts_model_outside_shadow_tcp (cfg : Cfg) (env : Env) (ci ci' : ClientInfo)
+    (tcb' : Option Tcb) (p : Bytes) (reply : Option Bytes) (htcp : ci.transport = some 6) (hck : ci.cookie ≠ none)
+    (hci : CiOk ci) (hl : p.length ≤ 65535)
+    (hrun : protoRepl cfg env ci (some {}) p = .ok (ci', tcb', reply)) (hns : shadowed p = false) :
+    (judgeC15 (obsOf ci p ci' reply)).ok = true := by
+  rcases judgeC15_tcp_cases cfg env ci ci' tcb' p reply htcp hck hci hl hrun with h | ⟨h, _⟩
+  · exact h
+  · rw [hns] at h; cases h
+
+/-- **C15 judge, every failure on model behaviour is classified as K2, first TCP segment** (FULL STRENGTH): the
+    verdict is "ok" or carries the "[shadowed] " marker — in particular the unmarked "STUN change-port rule
+    violated" cannot occur on the model's answer: the reply's source port is advanced on the TCP path too -/
+theorem judgeC15_fails_only_shadowed_tcp (cfg : Cfg) (env : Env) (ci ci' : ClientInfo)
+    (tcb' : Option Tcb) (p : Bytes) (reply : Option Bytes) (htcp : ci.transport = some 6) (hck : ci.cookie ≠ none)
+    (hci : CiOk ci) (hl : p.length ≤ 65535)
+    (hrun : protoRepl cfg env ci (some {}) p = .ok (ci', tcb', reply)) :
+    okOrMarked (judgeC15 (obsOf ci p ci' reply)) := by
+  rcases judgeC15_tcp_cases cfg env ci ci' tcb' p reply htcp hck hci hl hrun with h | ⟨_, h⟩
+  · exact .inl h
+  · exact .inr h
 
 /-- later segment of a flow whose sticky protocol id is STUN (the harness reads the id from the
     program's table and passes `forced = some 2`; the model's answer is the handler call
@@ -159,8 +241,8 @@ theorem judgeC15_accepts_model_sticky (cfg : Cfg) (env : Env) (ci ci' : ClientIn
   obtain ⟨sp, hps, hsp⟩ := hci.sport
   obtain ⟨dp, hdp⟩ := hci.dport
   rw [handle_stun] at hrun
-  simp only [judgeC15, refOf, obsOfForced, obsOf, Option.isNone_some, Bool.false_eq_true, and_false, if_false,
-    if_true]
+  simp only [judgeC15, refOf, obsOfForced, obsOf, Option.isNone_some, Bool.false_eq_true, false_and, and_false,
+    if_false, if_true]
   cases hp : parseStun p with
   | none => rfl
   | some m =>
@@ -267,6 +349,45 @@ example :
     (modelVerdict judgeC15 C18.cfgE C18.envE ciUdp none stunPlain).any (fun v => v.ok && v.nontrivial) = true := by
   decide +kernel
 
+theorem ciOk_ciTcp : CiOk ciTcp := ⟨⟨_, rfl, by decide⟩, ⟨_, rfl, by decide⟩, ⟨_, rfl⟩⟩
+
+/-- non-vacuity of the TCP theorems: the RFC 5389 Binding Request `C15ex.reqB` (magic cookie, 268 attribute
+    bytes, one change-port CHANGE-REQUEST; 288 bytes) as FIRST SEGMENT of a TCP flow to port 111: outside
+    `Spec.shadowed`, stream reference = STUN; the model answers, the verdict is "ok" with `nontrivial = true`, and
+    the local port after the call is 111 + 1 = 112.  The RFC 3489 request `reqA` (no cookie) completes no stream
+    signature: not a STUN exchange over TCP (`pass false`). -/
+example :
+    shadowed C15ex.reqB = false ∧ refStream C15ex.reqB = some ID_STUN ∧ C15ex.reqB.length ≤ 65535 ∧
+    ciTcp.transport = some 6 ∧ ciTcp.cookie ≠ none ∧ ciTcp.portDst = some 111 ∧
+    (match protoRepl C18.cfgE C18.envE ciTcp (some {}) C15ex.reqB with
+     | .ok (ci', _, reply) =>
+       (judgeC15 (obsOf ciTcp C15ex.reqB ci' reply)).ok && (judgeC15 (obsOf ciTcp C15ex.reqB ci' reply)).nontrivial &&
+       reply.isSome && decide ((obsOf ciTcp C15ex.reqB ci' reply).portAfter = 112)
+     | .error _ => false) = true ∧
+    refStream C15ex.reqA = none ∧
+    (modelVerdict judgeC15 C18.cfgE C18.envE ciTcp (some {}) C15ex.reqA).any (fun v => v.ok && !v.nontrivial) = true := by
+  decide +kernel
+
+/-- the theorem applied to `reqB` over TCP -/
+example (ci' : ClientInfo) (tcb' : Option Tcb) (reply : Option Bytes)
+    (hrun : protoRepl C18.cfgE C18.envE ciTcp (some {}) C15ex.reqB = .ok (ci', tcb', reply)) :
+    (judgeC15 (obsOf ciTcp C15ex.reqB ci' reply)).ok = true :=
+  judgeC15_accepts_model_outside_shadow_tcp _ _ _ _ _ _ _ rfl (by decide) ciOk_ciTcp (by decide +kernel) hrun
+    (by decide +kernel)
+
+/-- inside the shadow set, over TCP: `stunSoftware` (cookie, one SOFTWARE attribute) and `stunPlain` (cookie, no
+    attribute — answered as a DATAGRAM through the end-anchored 20-byte form, which does not exist on a stream)
+    complete the published cookie signature, are not identified by the compiled matcher and not answered: the
+    verdict fails WITH the marker -/
+example :
+    shadowed stunSoftware = true ∧ refStream stunSoftware = some ID_STUN ∧
+    shadowed stunPlain = true ∧ refStream stunPlain = some ID_STUN ∧
+    (modelVerdict judgeC15 C18.cfgE C18.envE ciTcp (some {}) stunSoftware).any (fun v =>
+      !v.ok && v.clause == "[shadowed] STUN binding request not answered") = true ∧
+    (modelVerdict judgeC15 C18.cfgE C18.envE ciTcp (some {}) stunPlain).any (fun v =>
+      !v.ok && v.clause == "[shadowed] STUN binding request not answered") = true := by
+  decide +kernel
+
 /-- `judgeC15_accepts_model_sticky`: a Binding Request as later segment of a STUN flow (`nontrivial`) -/
 example :
     (match protoHandle C18.cfgE C18.envE ID_STUN ciTcp (some { protoId := ID_STUN }) C15ex.reqA with
@@ -280,7 +401,9 @@ end examples
 #print axioms judgeC15_datagram_cases
 #print axioms judgeC15_accepts_model_outside_shadow
 #print axioms judgeC15_fails_only_shadowed
-#print axioms judgeC15_accepts_model_tcp
+#print axioms judgeC15_tcp_cases
+#print axioms judgeC15_accepts_model_outside_shadow_tcp
+#print axioms judgeC15_fails_only_shadowed_tcp
 #print axioms judgeC15_accepts_model_sticky
 #print axioms no_alias_udp
 #print axioms dnsTidAlias_accepted
